@@ -180,6 +180,16 @@ fn cmd_replay(args: &[String]) {
                     }
                     // fl.noev: the call's hook events are not handed to the trace validator (very long literal
                     // operand lists: the machine's free operand order makes their validation exponential)
+                    // the member order of objects is immaterial (C15 says so for `in`; no statement gives it a meaning
+                    // anywhere else): the same call with every object's members in the opposite order must agree
+                    if verdict.is_none() && c.helper.is_none() && (aj::has_multi(&c.rule) || aj::has_multi(&c.data)) {
+                        let o3 = run::run_apply(&aj::reverse_members(&c.rule), &aj::reverse_members(&c.data));
+                        if o3.crash.is_some() {
+                            verdict = Some("the call crashed with the members of its objects in the opposite order".to_string());
+                        } else if let Some(w) = run::compare(&run::outcome_aj(&o3), &o, false, false) {
+                            verdict = Some(format!("the outcome depends on the member order of objects ({}): with reversed members {}", w, run::outcome_plain(&o3)));
+                        }
+                    }
                     if let Some(w) = evw.as_mut().filter(|_| !fl["noev"].as_bool().unwrap_or(false)) {
                         for e in run::events_aj(&o.events) {
                             writeln!(w, "{}", e).unwrap();
